@@ -26,7 +26,9 @@ vars == <<cs, arrived, dlag, stages, elag, out, nch, done, dev, surf>>
 \* elag:    output items the encoder holds back; out: items surfaced by the encoder (decoded view)
 
 \* FilterBodyAction::new: the gate
-Active(c) == c.fs # <<>> /\ (c.enc = "none" \/ c.enc \in Supported)
+\* a filter whose action is unknown builds no stage: a list of such filters is as good as an empty one
+Builds(fs) == \E k \in 1..Len(fs) : fs[k].act # "unknown"
+Active(c) == Builds(c.fs) /\ (c.enc = "none" \/ c.enc \in Supported)
 Coded(c) == Active(c) /\ c.enc \in Supported
 Total == Len(AllUnits(cs.doc))
 
